@@ -1014,6 +1014,10 @@ func (ec *EvalCtx) evalCall(x *ECall) Val {
 					exc[key] = append(exc[key], fmt.Sprintf("(not (= (root a) (root %s)))", pv.T))
 					continue
 				}
+				if id, ok := a.(*EIdent); ok && id.Name == "maps" {
+					exc["maps"] = []string{"false"}
+					continue
+				}
 				if c, ok := a.(*ECall); ok && c.Fn == "class" && len(c.Args) == 1 {
 					// every cell of one leaf class (e.g. class("Str"): all string cells) is exempt
 					l, ok := c.Args[0].(*ELit)
@@ -1277,6 +1281,9 @@ func (ec *EvalCtx) memFrame(a, b *MemState, withModels bool) string {
 		base := ec.frameBase
 		if base == "" {
 			base = "allocbase"
+		}
+		if len(ec.frameExcept["maps"]) > 0 && (strings.HasPrefix(k, "MH_") || strings.HasPrefix(k, "MV_") || k == "ML") {
+			continue
 		}
 		cond := fmt.Sprintf("(<= (root a) %s)", base)
 		if e := ec.frameExcept[k]; len(e) > 0 {
